@@ -11,7 +11,8 @@ Proved here, about the model `EncTotal.lean` (tied to the code by the differenti
 * `quantiser_range_*`, `packing_cannot_overflow`, `packed_formats_fit` — every scalar quantiser
   of src/color/formats.rs stays within its bit field for EVERY input including NaN and the
   infinities, so no shift of the packing pushes a bit out or into a neighbouring field;
-* `quantiser_range_shared_exp`, `shared_exp_channel_bounds`, `shared_exp_scaling_exact` —
+* `quantiser_range_shared_exp`, `shared_exp_zero_sign_irrelevant`, `shared_exp_channel_bounds`,
+  `shared_exp_scaling_exact` —
   R9G9B9E5 (`rgb9995f::from_f32`) at the bit level, on binary32 bit patterns with a software
   binary32 (no assumption on the rounding): for EVERY triple of patterns no `debug_assert!`
   fails, the mantissas are at most 511, the exponent at most 31, the word is the 9+9+9+5 packing;
@@ -32,6 +33,7 @@ property's "never panics" clause.
 import DdsModel.Proofs.EncTotal
 import DdsModel.Proofs.EncQuant
 import DdsModel.Proofs.SharedExp
+import DdsModel.Proofs.SharedExpTie
 import DdsModel.Proofs.QuantBits
 namespace Dds.C15
 open Dds Dds.EncTotal
@@ -288,6 +290,15 @@ theorem quantiser_range_shared_exp (tie : Nat → Bool) (r g b : Nat) :
       pack [(rm, 9), (gm, 9), (bm, 9), (e, 5)] < 2 ^ 32 :=
   SharedExp.fromF32_range tie r g b
 
+/-- **R9G9B9E5: the sign of zero never reaches the result.**  Rust documents that `f32::max`
+may return either operand when `-0.0` meets `+0.0`; the model leaves that choice open at each of
+the five `max` calls (`tie`).  Whatever is chosen, the fields and the encoded word are the same —
+so the one choice the differential driver runs speaks for all. -/
+theorem shared_exp_zero_sign_irrelevant (tie tie' : Nat → Bool) (r g b : Nat) :
+    SharedExp.fields tie r g b = SharedExp.fields tie' r g b ∧
+    SharedExp.fromF32 tie r g b = SharedExp.fromF32 tie' r g b :=
+  ⟨SharedExp.fields_tie_irrelevant tie tie' r g b, SharedExp.fromF32_tie_irrelevant tie tie' r g b⟩
+
 /-- **R9G9B9E5, the mechanism, per channel.**  `c` is a clamped non-zero channel (a pattern in
 `[1, 0x477F8000]`, i.e. a positive value up to 65408.0, subnormals included) whose exponent field
 is at most `exp + 111` — true of every channel when `exp = max(raw_exp − 111, 0)` is computed from
@@ -517,6 +528,10 @@ example : SharedExp.fields (fun _ => false) 0x3F800000 0x3F000000 0x3E800000 = s
     SharedExp.fromF32 (fun _ => false) 0x7FC00000 0xFFC00001 0x7F800001 = some 0 ∧
     SharedExp.fromF32 (fun _ => false) 0x3F800000 0x3F000000 0x3E800000 = some 0x81010100 := by
   decide +kernel
+-- the tie is real: `(-0.0).max(0.0)` is `-0.0` or `+0.0` depending on the choice, the word is 0 both times
+example : SharedExp.clamp0Max true 0x80000000 = 0x80000000 ∧ SharedExp.clamp0Max false 0x80000000 = 0 ∧
+    SharedExp.fromF32 (fun _ => true) 0x80000000 0 0x80000000 = some 0 ∧
+    SharedExp.fromF32 (fun _ => false) 0x80000000 0 0x80000000 = some 0 := by decide +kernel
 -- the hypotheses of `shared_exp_channel_bounds` and of the exactness clause are satisfiable:
 -- c = 1023.0 (exponent field 136 = 25 + 111), and 1023.0 * 2^-1 = 511.5 exactly
 example : 1 ≤ 0x447FC000 ∧ 0x447FC000 ≤ SharedExp.c65408 ∧ 25 ≤ 31 ∧
